@@ -26,6 +26,13 @@ Proof. exact (run_num_spec n). Qed.
 Theorem C15_T2_exact_floor d rps : In d mech_descs -> 1 <= rps < 1093 ->
   blks_per_frame_of d rps = exact_blks d rps.
 Proof. exact (blks_per_frame_exact d rps). Qed.
+(* ... and for the block period T the decoder holds NOW: a Bpearl of hardware v4 replaces it (55.56 us) at its first MSOP packet,
+   and every later DIFOP computes N from that one; for every other type the period held is the constructor's *)
+Theorem C15_T2_exact_floor_now d s rps : In d mech_descs -> 1 <= rps < 1093 ->
+  blks_per_frame_bd (cur_bd d s) rps = exact_blks_bd (cur_bd d s) rps.
+Proof. intros Hd Hr. exact (blks_per_frame_bd_exact d (cur_bd d s) rps Hd (cur_bd_in d s) Hr). Qed.
+Theorem C15_T2_periods : forallb bd_tabs_ok mech_descs = true.
+Proof. exact bd_tabs_all. Qed.
 Theorem C15_T2_initial : forallb init_split_ok mech_descs = true.
 Proof. exact init_split_all. Qed.
 Theorem C15_T2_after_difop d wp s b : d_family d = Mech ->
@@ -33,7 +40,7 @@ Theorem C15_T2_after_difop d wp s b : d_family d = Mech ->
   let rps0 := be16 b (d_off_difop_rpm d) / 60 in
   let rps := if rps0 =? 0 then 10 else rps0 in
   s_echo_dual s' = echo_of d (u8 b (d_off_difop_return_mode d)) /\
-  s_blks_per_frame s' = blks_per_frame_of d rps /\
+  s_blks_per_frame s' = blks_per_frame_bd (cur_bd d s) rps /\
   s_split_blks s' = split_blks_of d (s_echo_dual s') (s_blks_per_frame s').
 Proof. exact (difop_split_blks d wp s b). Qed.
 Print Assumptions C15_T2_after_difop.
